@@ -7,7 +7,7 @@ TRAITS = ("std::clone::Clone", "std::cmp::PartialEq", "std::fmt::Debug", "std::o
 
 
 def rule_build_all(ctx, configs):
-    R = ctx.rule("BUILD-ALL", "every Linux feature configuration (default, memfd, force-inprocess, async, async+force-inprocess) type-checks against the same ipc/router/asynch layers")
+    R = ctx.rule("BUILD-ALL", "every Linux feature configuration (default, memfd, force-inprocess, async, async+force-inprocess; thorough tier: all eight combinations of memfd/async/force-inprocess) type-checks against the same ipc/router/asynch layers")
     for c in configs:
         try:
             F = ctx.F(c)
